@@ -193,7 +193,12 @@ def ts_cases(draw):
         suf = draw(st.one_of(st.sampled_from(["0" * k, "9" * k, "0" * (k - 1) + "1", "1" + "0" * (k - 1)]),
                              st.integers(0, 10 ** k - 1).map(lambda v, k=k: str(v).zfill(k))))
     neg = draw(st.booleans())
-    tzname = draw(st.one_of(st.none(), st.sampled_from(vtz.TZ_POOL_SMALL), st.sampled_from(_common())))
+    # tz database names without a slash that the library's abbreviation table does not list: TIMEZONE asks the tz database
+    # first, so they mean the database zone (with its DST rules); they are not used for TO_TIMEZONE, which asks the
+    # abbreviation table first and finds 'EDT' inside 'EST5EDT'
+    tzname = draw(st.one_of(st.none(), st.sampled_from(vtz.TZ_POOL_SMALL), st.sampled_from(_common()),
+                            st.sampled_from(["EST5EDT", "CST6CDT", "MST7MDT", "PST8PDT", "Japan", "Singapore", "Israel", "Turkey", "Egypt",
+                                             "Cuba", "Poland", "Portugal", "Iran", "Navajo", "NZ", "ROK", "PRC", "W-SU"])))
     to_tz = draw(st.one_of(st.none(), st.none(), st.sampled_from(vtz.TZ_POOL_SMALL)))
     return {"kind": "ts", "n": n, "suffix": suf, "neg": neg, "tz": tzname, "to_tz": to_tz}
 
